@@ -2,7 +2,7 @@
    Directives: ExtrOcamlBasic and ExtrOcamlString only; N, Z, positive, nat stay
    the extracted inductive types. *)
 From Coq Require Import ExtrOcamlBasic ExtrOcamlString.
-From TM Require Import Base Mapper Monitors Loop LoopMonitors.
+From TM Require Import Base Mapper Monitors Loop LoopMonitors LoopDevice.
 From TMGen Require Import Modifiers.
 
 Definition x_is_action : key -> bool := Modifiers.is_action_key.
@@ -12,6 +12,8 @@ Definition x_pending := Loop.pending.
 Definition x_linit := Loop.linit.
 Definition x_check_transcript := check_transcript x_is_action.
 Definition x_check_outcome := check_outcome.
+(* the device-level monitor (C01.device / C02.device / C19.device): TMProps.C01.C01_loop_device_monitor_never_fires *)
+Definition x_device_check := LoopDevice.device_check x_is_action.
 Definition x_annotate := annotate.
 Definition x_for_layout_ok := for_layout_ok.
 Definition x_step := step x_is_action.
@@ -23,5 +25,5 @@ Definition x_zleb := Z.leb.
 Definition x_zltb := Z.ltb.
 Definition x_zdiv_eucl := Z.div_eucl.
 
-Extraction "model.ml" x_is_action x_run x_resume x_pending x_linit x_check_transcript x_check_outcome x_annotate x_for_layout_ok
+Extraction "model.ml" x_is_action x_run x_resume x_pending x_linit x_check_transcript x_check_outcome x_device_check x_annotate x_for_layout_ok
   x_step x_init x_zadd x_zsub x_zmul x_zleb x_zltb x_zdiv_eucl.
